@@ -298,7 +298,7 @@ func OwnTextAuth(p *load.Program) *report.RuleResult {
 						r.Bad(p.FuncName(fn), instrPos(p, c), "newSymbolToken call", "the $n interpretation is applied where no token kind has been established")
 						continue
 					}
-					ef = ssau.TrackEnum(fn, matchPath(path))
+					ef = ssau.TrackEnumFrom(fn, matchPath(path), enumOnEntry(p, fn, path, 2))
 				}
 				vs, _ := ef.At(c)
 				what := "newSymbolToken call"
@@ -325,4 +325,73 @@ func OwnTextAuth(p *load.Program) *report.RuleResult {
 		missing(r, "newSymbolToken calls in the text reader", sprintf("found %d, expected 3", nCalls))
 	}
 	return r
+}
+
+// enumOnEntry: what the module's callers of fn establish for the parameter with the given path
+// ("p.<name>") before calling: the join, over every static call site, of the constants the argument
+// may equal there. Unconstrained when the path is no parameter, when there is no caller, or beyond depth.
+func enumOnEntry(p *load.Program, fn *ssa.Function, path string, depth int) ssau.ValueSet {
+	top := ssau.ValueSet{NotIn: map[string]bool{}}
+	idx := -1
+	for i, pa := range fn.Params {
+		if ssau.Path(pa) == path {
+			idx = i
+		}
+	}
+	if idx < 0 || depth == 0 || (fn.Object() != nil && fn.Object().Exported()) {
+		return top
+	}
+	var out *ssau.ValueSet
+	for _, g := range sortedFuncs(p) {
+		if p.InTest(g) || !p.InModule(g) {
+			continue
+		}
+		var efs = map[string]*ssau.EnumFlow{}
+		for _, b := range g.Blocks {
+			for _, in := range b.Instrs {
+				c, ok := in.(ssa.CallInstruction)
+				if !ok {
+					continue
+				}
+				if c.Common().StaticCallee() != fn {
+					// the function used as a value somewhere: callers unknown
+					for _, a := range c.Common().Args {
+						if a == ssa.Value(fn) {
+							return top
+						}
+					}
+					continue
+				}
+				if idx >= len(c.Common().Args) {
+					return top
+				}
+				a := c.Common().Args[idx]
+				var vs ssau.ValueSet
+				if k, ok := a.(*ssa.Const); ok && k.Value != nil {
+					vs = ssau.ValueSet{In: map[string]bool{k.Value.ExactString(): true}, NotIn: map[string]bool{}}
+				} else {
+					ap := ssau.Path(a)
+					ef := efs[ap]
+					if ef == nil {
+						ef = ssau.TrackEnumFrom(g, matchPath(ap), enumOnEntry(p, g, ap, depth-1))
+						efs[ap] = ef
+					}
+					vs, _ = ef.At(c)
+					if vs.NotIn == nil {
+						vs.NotIn = map[string]bool{}
+					}
+				}
+				if out == nil {
+					out = &vs
+				} else {
+					j := ssau.JoinSets(*out, vs)
+					out = &j
+				}
+			}
+		}
+	}
+	if out == nil {
+		return top
+	}
+	return *out
 }
